@@ -74,6 +74,9 @@ fn workloads(prop: &str, thorough: bool) -> Vec<Work> {
     };
     match prop {
         "C01" => {
+            // final consumers with a second, failing upstream: a stale result only shows evaluations later (C01-10)
+            w.push(chains(Plain, EphFail, 4, 10000 * k));
+            w.push(chains(Stamped, EphFail, 4, 4000 * k));
             w.push(bridge(Prod, Random, 8, 600 * k, false, false));
             w.push(bridge(Prod, Rename, 6, 500 * k, false, false));
             w.push(bridge(Prod, KindFlip, 8, 400 * k, false, false));
